@@ -7,6 +7,7 @@ import (
 	"io"
 	"net/http"
 	"net/http/httptest"
+	"os"
 	"strings"
 	"sync"
 
@@ -45,7 +46,7 @@ func (s *Stack) Router() http.Handler {
 	routerOnce.Lock()
 	defer routerOnce.Unlock()
 	if s.router == nil {
-		s.router = api.NewRouter(s.Sys, jwt.NewNoAuth(), nil, "verif", false,
+		s.router = api.NewRouter(s.Sys, jwt.NewNoAuth(), nil, "verif", os.Getenv("VH_DEBUG") != "",
 			api.WithExporters(false),
 		)
 	}
